@@ -30,6 +30,10 @@ func init() {
 	if d := os.Getenv("SYMGO_REPO"); d != "" {
 		repoDir = d
 	}
+	// debugging aid: develop harnesses in another checkout of /verif
+	if d := os.Getenv("SYMGO_VERIF"); d != "" {
+		verifDir = d
+	}
 }
 
 func goEnv() []string {
